@@ -472,6 +472,17 @@ def run_matrix(case, tags):
             o = attempt(f)
             if not o.ok or not same_array(np.array(o.value, dtype=object if False else None), np.array(e), dtype=False):
                 return violated("%s of from_numpy_array(%s) gives %s, expected %s" % (what, short(m), repr(o) if not o.ok else short(o.value), short(e)), tags + ["matrix-rows"])
+    if m.size and m.flags.writeable:
+        # RaggedArray(matrix): the rows of a 2-d array, an array of its own -- the caller goes on using his matrix
+        CTX.tick("c01:matrix-ctor-independent")
+        m2 = np.array(m, copy=True, order="K")
+        z = attempt(lambda: RA(m2))
+        if not z.ok or not same_array(z.value.ravel(), m.ravel()) or np.asarray(z.value.lengths).tolist() != [c_] * r_:
+            return violated("RaggedArray(%s) gives %s" % (short(m), repr(z) if not z.ok else short(z.value)), tags + ["matrix-ctor"])
+        m2[...] = (np.logical_not(m2) if dt.kind == "b" else m2 + np.ones(1, dtype=dt)[0])
+        m2[...] = np.where(np.asarray(m2 == m) if dt.kind != "f" else np.asarray((m2 == m) | (np.isnan(m2.astype(float)) & np.isnan(m.astype(float)))), np.ones(1, dtype=dt)[0] * 3, m2) if dt.kind != "b" else m2
+        if not same_array(z.value.ravel(), m.ravel()):
+            return violated("RaggedArray(matrix) follows later writes to the caller's matrix: it now reads %s, was built from %s" % (short(z.value), short(m)), tags + ["matrix-ctor", "shares-memory"])
     y = attempt(x.to_numpy_array)
     if not y.ok:
         return violated("to_numpy_array after from_numpy_array(%s matrix) raised %r" % (m.shape, y), tags)
@@ -500,6 +511,10 @@ def run_reject(case, tags):
         f = lambda: RA(flat, np.array(lens, dtype=np.int64))
     elif form == "raggedshape":
         f = lambda: RA(flat, CTX.lib.RaggedShape(list(lens)))
+    elif form == "shape_tuple":
+        f = lambda: RA(flat, RA(np.zeros(tot, dtype=np.int8), list(lens)).shape)          # another array's .shape: the pair (number of rows, row lengths)
+    elif form == "pair":
+        f = lambda: RA(flat, (len(lens), np.array(lens, dtype=np.int64)))
     else:
         f = lambda: RA(flat, list(lens))
     CTX.tick("c01:reject")
@@ -564,7 +579,7 @@ def directed():
     yield mk_case([101], "float64", "flat", "small", rng=rng)
     # rejected buffers: +-1 and +- a whole row
     for lens in [[2, 3], [0, 2], [2, 0], [0, 0], [3], [], [1, 1, 1], [4, 0, 4]]:
-        for form in ("lens", "list", "nplens", "raggedshape"):
+        for form in ("lens", "list", "nplens", "raggedshape", "shape_tuple", "pair"):
             yield reject_case(lens, +1, form=form)
             if sum(lens):
                 yield reject_case(lens, -1, form=form)
